@@ -50,6 +50,34 @@ pub open spec fn spec_refresh_part1<C: Ciphersuite>(res: Result<(round1::SecretP
 }
 
 // ---------------------------------------------------------------------------------------------------
+// `Seq::no_duplicates` is a two-variable quantifier over all pairs of index terms; with three loops over three key sequences in one
+// function (refresh_dkg_shares, loop isolation off) its instantiations dominate the proof (measured: 59% of all instantiations, half of the
+// resource limit).  The loop contracts therefore carry the fact as an OPAQUE predicate, revealed only inside the step lemmas.
+#[verifier::opaque]
+pub open spec fn nodup<T>(s: Seq<T>) -> bool { s.no_duplicates() }
+
+// what `BTreeMap::iter()` yields (vstd specification of the iterator, lemmas/vorder.rs), with the duplicate-freeness kept opaque
+pub proof fn lemma_btree_iter_keys<K: Ord, V>(m: Map<K, V>, rem: Seq<(&K, &V)>)
+    requires vstd::laws_cmp::obeys_cmp::<K>(), lt_laws::<K>(),
+        rem.len() == m.dom().len(), m.dom().finite(),
+        forall|i: int| 0 <= i < rem.len() ==> m.contains_key(*(#[trigger] rem[i]).0) && m[*rem[i].0] == *rem[i].1,
+        vstd::std_specs::btree::increasing_seq(rem.map_values(|p: (&K, &V)| *p.0)),
+    ensures rem.map_values(|p: (&K, &V)| *p.0) == sorted_seq(m.dom()), nodup(rem.map_values(|p: (&K, &V)| *p.0)),
+        rem.map_values(|p: (&K, &V)| *p.0).to_set() == m.dom(),
+{
+    reveal(nodup);
+    lemma_btree_iter_sorted::<K, V>(m, rem);
+    let ks = rem.map_values(|p: (&K, &V)| *p.0);
+    ks.unique_seq_to_set();
+    assert(ks.to_set().subset_of(m.dom())) by {
+        assert forall|x: K| ks.to_set().contains(x) implies m.dom().contains(x) by {
+            let w = choose|w: int| 0 <= w < ks.len() && ks[w] == x; assert(m.contains_key(*rem[w].0));
+        }
+    }
+    vstd::set_lib::lemma_subset_equality(ks.to_set(), m.dom());
+}
+
+// ---------------------------------------------------------------------------------------------------
 // refresh_dkg_part2
 //
 // the error refresh_dkg_part2 returns, guard by guard in source order (None = success).  The length check is made on the
@@ -85,12 +113,13 @@ pub proof fn lemma_refresh_part2_acc_step<C: Ciphersuite>(r2: Map<Identifier<C>,
         r1: Map<Identifier<C>, round1::Package<C>>, min_signers: u16, j: int)
     // implication form (no `requires`): the iteration sequence of a loop is prophetic and a proof block may not branch on it, so the
     // caller cannot guard the call by the premise; a mutant then fails at the named invariant, not at this call
-    ensures 0 <= j < keys.len() && keys.no_duplicates() && spec_refresh_part2_acc::<C>(r2, keys, coeffs, r1, min_signers, j)
+    ensures 0 <= j < keys.len() && nodup(keys) && spec_refresh_part2_acc::<C>(r2, keys, coeffs, r1, min_signers, j)
             && spec_with_identity::<C>(r1[keys[j]].commitment.0@).len() == min_signers
         ==> spec_refresh_part2_acc::<C>(r2.insert(keys[j], spec_r2_package::<C>(coeffs, keys[j])), keys, coeffs, r1, min_signers, j + 1)
 {
-  if 0 <= j < keys.len() && keys.no_duplicates() && spec_refresh_part2_acc::<C>(r2, keys, coeffs, r1, min_signers, j)
+  if 0 <= j < keys.len() && nodup(keys) && spec_refresh_part2_acc::<C>(r2, keys, coeffs, r1, min_signers, j)
             && spec_with_identity::<C>(r1[keys[j]].commitment.0@).len() == min_signers {
+    reveal(nodup);
     let r22 = r2.insert(keys[j], spec_r2_package::<C>(coeffs, keys[j]));
     assert(keys.take(j + 1) =~= keys.take(j).push(keys[j]));
     assert(r22.dom() =~= keys.take(j + 1).to_set()) by {
@@ -225,11 +254,12 @@ pub proof fn lemma_is_recompleted<C: Ciphersuite>(full: Seq<CoefficientCommitmen
 
 pub proof fn lemma_recompleted_acc_step<C: Ciphersuite>(nr1: Map<Identifier<C>, round1::Package<C>>, keys: Seq<Identifier<C>>,
         r1: Map<Identifier<C>, round1::Package<C>>, j: int, p: round1::Package<C>)
-    ensures 0 <= j < keys.len() && keys.no_duplicates() && spec_recompleted_acc::<C>(nr1, keys, r1, j)
+    ensures 0 <= j < keys.len() && nodup(keys) && spec_recompleted_acc::<C>(nr1, keys, r1, j)
             && spec_is_recompleted::<C>(p.commitment.0@, r1[keys[j]].commitment.0@)
         ==> spec_recompleted_acc::<C>(nr1.insert(keys[j], p), keys, r1, j + 1)
 {
-  if 0 <= j < keys.len() && keys.no_duplicates() && spec_recompleted_acc::<C>(nr1, keys, r1, j) && spec_is_recompleted::<C>(p.commitment.0@, r1[keys[j]].commitment.0@) {
+  if 0 <= j < keys.len() && nodup(keys) && spec_recompleted_acc::<C>(nr1, keys, r1, j) && spec_is_recompleted::<C>(p.commitment.0@, r1[keys[j]].commitment.0@) {
+    reveal(nodup);
     lemma_is_recompleted::<C>(p.commitment.0@, r1[keys[j]].commitment.0@);
     let n2 = nr1.insert(keys[j], p);
     assert(keys.take(j + 1) =~= keys.take(j).push(keys[j]));
@@ -280,10 +310,11 @@ pub open spec fn spec_new_vs_acc<C: Ciphersuite>(nvs: Map<Identifier<C>, Verifyi
 
 pub proof fn lemma_new_vs_acc_step<C: Ciphersuite>(nvs: Map<Identifier<C>, VerifyingShare<C>>, keys: Seq<Identifier<C>>, zvs: Map<Identifier<C>, VerifyingShare<C>>,
         old_vs: Map<Identifier<C>, VerifyingShare<C>>, j: int)
-    ensures 0 <= j < keys.len() && keys.no_duplicates() && spec_new_vs_acc::<C>(nvs, keys, zvs, old_vs, j) && old_vs.contains_key(keys[j])
+    ensures 0 <= j < keys.len() && nodup(keys) && spec_new_vs_acc::<C>(nvs, keys, zvs, old_vs, j) && old_vs.contains_key(keys[j])
         ==> spec_new_vs_acc::<C>(nvs.insert(keys[j], VerifyingShare::<C>(SerializableElement(eadd::<C>(zvs[keys[j]].0.0, old_vs[keys[j]].0.0)))), keys, zvs, old_vs, j + 1)
 {
-  if 0 <= j < keys.len() && keys.no_duplicates() && spec_new_vs_acc::<C>(nvs, keys, zvs, old_vs, j) && old_vs.contains_key(keys[j]) {
+  if 0 <= j < keys.len() && nodup(keys) && spec_new_vs_acc::<C>(nvs, keys, zvs, old_vs, j) && old_vs.contains_key(keys[j]) {
+    reveal(nodup);
     let n2 = nvs.insert(keys[j], VerifyingShare::<C>(SerializableElement(eadd::<C>(zvs[keys[j]].0.0, old_vs[keys[j]].0.0))));
     assert(keys.take(j + 1) =~= keys.take(j).push(keys[j]));
     assert(n2.dom() =~= keys.take(j + 1).to_set()) by {
@@ -323,10 +354,11 @@ pub proof fn lemma_btree_pairs_sorted<K: Ord, V>(m: Map<K, V>, pairs: Seq<(K, V)
         pairs.len() == m.dom().len(), m.dom().finite(),
         forall|i: int| 0 <= i < pairs.len() ==> m.contains_key((#[trigger] pairs[i]).0) && m[pairs[i].0] == pairs[i].1,
         vstd::std_specs::btree::increasing_seq(pairs.map_values(|p: (K, V)| p.0)),
-    ensures pairs.map_values(|p: (K, V)| p.0) == sorted_seq(m.dom()), pairs.map_values(|p: (K, V)| p.0).no_duplicates(),
+    ensures pairs.map_values(|p: (K, V)| p.0) == sorted_seq(m.dom()), nodup(pairs.map_values(|p: (K, V)| p.0)),
         pairs.map_values(|p: (K, V)| p.0).to_set() == m.dom(),
         forall|i: int| 0 <= i < pairs.len() ==> (#[trigger] pairs[i]).1 == m[sorted_seq(m.dom())[i]],
 {
+    reveal(nodup);
     let ks = pairs.map_values(|p: (K, V)| p.0);
     assert(ks.no_duplicates()) by {
         broadcast use vstd::std_specs::btree::axiom_increasing_seq_meaning;
